@@ -544,6 +544,8 @@ def value_attr(M, it, base, attr):
             return bm(lambda it, a, kw: d.clear())
         if attr == '__contains__':
             return bm(lambda it, a, kw: M.contains(it, d, a[0]))
+        if attr == '__iter__':
+            return bm(lambda it, a, kw: list(d.keys()))
         if attr == 'has_key':
             raise_builtin('AttributeError', 'has_key')
         raise_builtin('AttributeError', "'dict' object has no attribute '%s'" % attr)
